@@ -29,7 +29,10 @@ type c07query struct {
 	cancel context.CancelFunc
 	done   chan dht.QueryResult
 	answer bool
-	marker [20]byte // r.id of the one correct reply
+	// answered and cancelled at the same moment: either outcome is fine for this query, but the
+	// reply must not surface anywhere else later
+	alsoCancel bool
+	marker     [20]byte // r.id of the one correct reply
 	misses map[[20]byte]string
 	result *dht.QueryResult
 }
@@ -78,6 +81,7 @@ func c07(c *evid.Ctx) {
 		for i := range qs {
 			q := &c07query{srv: r.Intn(ns), dest: gen.Pick(r, pool), method: gen.Pick(r, []string{"ping", "find_node", "get_peers", "get"}),
 				tag: r.ID(), done: make(chan dht.QueryResult, 1), answer: r.Intn(5) != 0, marker: r.ID(), misses: map[[20]byte]string{}}
+			q.alsoCancel = q.answer && r.Intn(8) == 0
 			qs[i] = q
 			ctx, cancel := context.WithCancel(context.Background())
 			q.cancel = cancel
@@ -233,6 +237,10 @@ func c07(c *evid.Ctx) {
 			if q.answer {
 				msg := srv.Response(q.t, benc.Dict{"id": q.marker})
 				conn.Inject(msg, q.dest)
+				if q.alsoCancel {
+					q.cancel()
+					c.Count("queries cancelled at the moment their reply arrives", 1)
+				}
 				replay, replayFrom, replaySrv = append(replay, msg), append(replayFrom, q.dest), append(replaySrv, q.srv)
 				if r.Bool() {
 					conn.Inject(msg, q.dest) // duplicate
@@ -262,6 +270,8 @@ func c07(c *evid.Ctx) {
 				c.Count("queries completed by their own reply", 1)
 				q.result = &res
 				switch {
+				case q.alsoCancel && errors.Is(res.Err, context.Canceled):
+					// lost the race against its own cancellation: fine
 				case res.Err != nil:
 					c.Violation("matching-reply-did-not-complete-the-query", fmt.Sprintf("query to %v t=%q returned %v", q.dest, q.t, res.Err), nil)
 				case res.Reply.R == nil || res.Reply.R.ID != q.marker:
